@@ -41,20 +41,69 @@ def layered(rnd):
         for s in ("S1", "S2"):
             if rnd.random() < 0.75:
                 wcs = [{"tr": rnd.choice((1, 2, 3)), "ty": T}]
-                if rnd.random() < 0.2: wcs.append({"tr": rnd.choice((1, 2, 3)), "ty": rnd.choice([T, U("S1", T), N("Z")])})
+                if rnd.random() < 0.35: wcs.append({"tr": rnd.choice((1, 2, 3)), "ty": rnd.choice([T, T, U("S1", T), N("Z")])})
                 impls.append({"tr": tr, "head": U(s, T), "wcs": wcs})
     rnd.shuffle(impls)
     return impls
 
-def sample_program(rnd, pid):
+def finite(rnd):
+    """finite answer sets with several answers: one trait implemented for 3..6 closed types (several of them sharing a constructor), the others
+    defined from it without recursion"""
+    closed = [N("Z"), N("Y"), U("S1", N("Z")), U("S1", N("Y")), U("S2", N("Z")), U("S2", N("Y")), U("S1", U("S1", N("Z"))), U("S1", U("S2", N("Y"))), U("S2", U("S1", N("Y")))]
+    base = rnd.choice((1, 2, 3))
+    others = [t for t in (1, 2, 3) if t != base]
+    # some of the closed impls have a where-clause on another closed type (which may fail: a strand that dead-ends between two answers)
+    impls = [{"tr": base, "head": h, "wcs": ([{"tr": rnd.choice((1, 2, 3)), "ty": rnd.choice(closed[:4])}] if rnd.random() < 0.35 else [])}
+             for h in rnd.sample(closed, rnd.choice((3, 4, 4, 5, 6)))]
+    if rnd.random() < 0.5:
+        # a trait with a single closed impl and a consumer whose where-clauses mix it with the many-answer trait (one where-clause decides
+        # the unknown, another stays ambiguous until then)
+        one, cons = others if rnd.random() < 0.5 else reversed(others)
+        impls.append({"tr": one, "head": rnd.choice([im["head"] for im in impls]), "wcs": []})
+        wcs = [{"tr": rnd.choice((base, one)), "ty": T} for _ in range(rnd.choice((2, 3, 3)))]
+        impls.append({"tr": cons, "head": U(rnd.choice(("S1", "S2")), T), "wcs": wcs})
+        rnd.shuffle(impls)
+        return impls
+    for tr in others:
+        k = rnd.random()
+        if k < 0.4: impls.append({"tr": tr, "head": T, "wcs": [{"tr": base, "ty": T}]})
+        elif k < 0.8:
+            wcs = [{"tr": base, "ty": T}]
+            if rnd.random() < 0.5: wcs.append({"tr": rnd.choice((1, 2, 3)), "ty": rnd.choice([T, N("Z")])})
+            if len(wcs) == 2 and rnd.random() < 0.5: wcs.append({"tr": rnd.choice((1, 2, 3)), "ty": T})
+            impls.append({"tr": tr, "head": U(rnd.choice(("S1", "S2")), T), "wcs": wcs})
+            if rnd.random() < 0.5: impls.append({"tr": tr, "head": N(rnd.choice("ZY")), "wcs": []})
+        else: impls += [{"tr": tr, "head": h, "wcs": []} for h in rnd.sample(closed, 2)]
+    rnd.shuffle(impls)
+    return impls
+
+def cyclic(impls):
+    """a trait depends on itself through where-clauses (the recursive solver's answers for goals with unknowns then come out of a
+    fixed-point iteration)"""
+    dep = {t: {w["tr"] for im in impls if im["tr"] == t for w in im["wcs"]} for t in (1, 2, 3)}
+    for t in (1, 2, 3):
+        seen, todo = set(), list(dep[t])
+        while todo:
+            x = todo.pop()
+            if x == t: return True
+            if x not in seen: seen.add(x); todo += list(dep[x])
+    return False
+
+def sample_program(rnd, pid, finite_share=0.2):
     while True:
         impls = []
+        if rnd.random() < finite_share:
+            impls = finite(rnd)
+            if coherent(impls): break
+            continue
         if rnd.random() < 0.6:
             impls = layered(rnd)
             if len(impls) >= 3 and coherent(impls): break
             continue
         for _ in range(rnd.choice((3, 4, 5, 6, 6, 7))):
             head = rnd.choice(HEADS)
+            # (impls with three where-clauses only occur in the acyclic `finite` programs: on cyclic ones the recursive solver's nested
+            # fixed-point iterations do not finish within the watchdog -- known finding KF15-C09)
             wcs = [{"tr": rnd.choice((1, 2, 3)), "ty": rnd.choice(wc_pool(head))} for _ in range(rnd.choice((0, 1, 1, 1, 2)))]
             impls.append({"tr": rnd.choice((1, 2, 3)), "head": head, "wcs": wcs})
         if coherent(impls): break
@@ -105,17 +154,40 @@ def judge_open(r, sols, maxdepth=3):
     return None
 
 def render(p, order, wcrev, decls_last):
+    """wcrev: False (where-clauses as listed), True (reversed) or an int (a permutation of each impl's where-clauses chosen by that number)"""
     decls = ["struct Z {}", "struct Y {}", "struct S1<T> {}", "struct S2<T> {}", "trait H {}", "trait P {}", "trait G {}"]
     impls = []
     for i in order:
         im = p["impls"][i]
-        wcs = list(reversed(im["wcs"])) if wcrev else im["wcs"]
+        if wcrev is True: wcs = list(reversed(im["wcs"]))
+        elif wcrev is False: wcs = im["wcs"]
+        else:
+            wcs = list(im["wcs"]); random.Random(wcrev * 7 + i).shuffle(wcs)
         gen = "<T>" if tdepth(im["head"]) >= 0 else ""
         wc = (" where " + ", ".join("%s: %s" % (show(w["ty"]), TR[w["tr"]]) for w in wcs)) if wcs else ""
         impls.append("impl%s %s for %s%s {}" % (gen, TR[im["tr"]], show(im["head"]), wc))
     return " ".join(impls + decls if decls_last else decls + impls)
 
 CFG = "SPECIFICATION Spec\nINVARIANTS FamilyCoherent OrderIrrelevant OneImplApplies Replay\nCHECK_DEADLOCK FALSE\n"
+
+def implmc_records(run, progs, tag):
+    """model-check ImplMC on the programs (in chunks, in parallel); returns {id: record} or None after a spec-level violation"""
+    from concurrent.futures import ThreadPoolExecutor
+    os.makedirs(tlc.WORK, exist_ok=True)
+    CH = 300
+    chunks = [progs[i:i + CH] for i in range(0, len(progs), CH)]
+    def mc(k):
+        inp = os.path.join(tlc.WORK, "inputs_%s_%d.ndjson" % (tag, k))
+        with open(inp, "w") as f:
+            for p in chunks[k]: f.write(json.dumps(p) + "\n")
+        out = run_tlc_mc(run, "ImplMC", CFG, "%s%d" % (tag, k), {"INPUTS": inp}, timeout=1500, workers=2, xmx="3g")
+        os.unlink(inp)
+        return out
+    with ThreadPoolExecutor(max_workers=6) as ex: outs = list(ex.map(mc, range(len(chunks))))
+    if any(o is None for o in outs): return None
+    recs = {r["id"]: r for o in outs for r in gc.parse_replay(o)}
+    if len(recs) != len(progs): raise ToolError("ImplMC: %d records for %d programs" % (len(recs), len(progs)))
+    return recs
 
 def order_generic(run, tier, nperm=None, n=None, tag="C13impl", salt=7):
     """nperm = 1: only the soundness / completeness judgement of each answer (C01); > 1: also equality across declaration orders (C13)"""
@@ -149,7 +221,7 @@ def order_generic(run, tier, nperm=None, n=None, tag="C13impl", salt=7):
                 if o not in orders: orders.append(o)
             goals = ["%s: %s" % (show(g["ty"]), TR[g["tr"]]) for g in p["goals"]] + OPEN_GOALS
             for j, o in enumerate(orders):
-                jobs.append({"id": len(jobs), "program": render(p, o, j % 3 == 1, j % 2 == 1), "solver": solver, "limits": True,
+                jobs.append({"id": len(jobs), "program": render(p, o, (False, True)[j] if j < 2 else j, j % 2 == 1), "solver": solver, "limits": True,
                              "ops": [{"op": "solve", "goal": g, "fresh": True} for g in goals]})
                 meta.append((p, o, goals))
         obs = harness.run("solve", jobs, timeout=300)
@@ -178,7 +250,11 @@ def order_generic(run, tier, nperm=None, n=None, tag="C13impl", salt=7):
                     nlim += 1; continue
                 ref = first.setdefault((p["id"], gi), (r.get("text"), job["program"]))
                 if r.get("text") != ref[0]:
-                    run.violation(dict(base, what="answer depends on the declaration order", goal=g), dict(rp, other_order_program=ref[1], other_order_answer=ref[0]))
+                    # both answers passed the judgement against the meaning: they differ in precision.  For the recursive solver on programs
+                    # whose traits depend on themselves this is a known finding (KF14-C13): the answer comes out of a fixed-point iteration
+                    # that stops at the first ambiguous round, and which round that is depends on the order of the clauses.
+                    frag = "cyclic" if cyclic(p["impls"]) else "acyclic"
+                    run.violation(dict(base, what="answer depends on the declaration order", fragment=frag), dict(rp, other_order_program=ref[1], other_order_answer=ref[0]))
                 else: run.traces += 1
             run.sample({"program": job["program"], "solver": sname, "goals": goals[10:16], "impl": [x.get("text") for x in ob["results"][10:16]]}, cap=3)
         run.extra["generic_struct_answers_beyond_size_limits_" + sname] = nlim
@@ -241,3 +317,53 @@ def streams_generic(run, tier):
             if not bad: run.traces += 1
             if sols: run.sample({"program": job["program"], "goal": g, "solutions": [show(s) for s in sols][:6], "stream": [[it["kind"], it["text"]] for it in items][:6]}, cap=3)
     run.extra["generic_struct_programs"] = len(progs)
+
+def history_generic(run, tier):
+    """C10 on the ImplMC / MiniMC families: goals with unknowns (several answers, aggregated guidance) asked as histories on ONE solver
+    (each goal twice, in two different orders) must be answered exactly as a fresh solver answers them, and as the meaning demands"""
+    import props_mini as pm
+    rnd = random.Random(seed() * 41 + 29)
+    n = 120 if tier == "quick" else 1200
+    progs = []
+    for i in range(n):
+        p = sample_program(rnd, i)
+        progs.append((render(p, list(range(len(p["impls"]))), False, False), ["%s: %s" % (show(g["ty"]), TR[g["tr"]]) for g in p["goals"][:4]] + OPEN_GOALS))
+    for p in pm.sample_programs(n, rnd, False):
+        if pm.co_generic(p) or not pm.mini_coherent(p): continue         # overlapping impls: the order of answers decides (see C13)
+        progs.append((pm.render_mini(p), list(pm.GOALS)))
+    nh = 0
+    for solver in (gc.SLG, gc.REC):
+        sname = gc.solver_name(solver)
+        jobs = []
+        for text, goals in progs:
+            jobs.append({"id": len(jobs), "program": text, "solver": solver, "limits": True, "ops": [{"op": "solve", "goal": g, "fresh": True} for g in goals]})
+            h1 = list(range(len(goals))) + list(range(len(goals)))
+            h2 = list(reversed(range(len(goals)))) + list(range(len(goals)))
+            rnd.shuffle(h2)
+            for h in (h1, h2):
+                jobs.append({"id": len(jobs), "program": text, "solver": solver, "limits": True, "hist": h, "ops": [{"op": "solve", "goal": goals[i]} for i in h]})
+        obs = harness.run("solve", jobs, timeout=300)
+        it = iter(zip(jobs, obs))
+        for text, goals in progs:
+            _, fresh = next(it)
+            hist = [next(it), next(it)]
+            base = {"solver": sname, "src": "history-generic"}
+            if fresh.get("error"):
+                run.case([text, sname]); run.violation(dict(base, what="abort-or-hang"), {"program": text, "solver": solver, "observed": fresh}); continue
+            for job, o in hist:
+                run.case([text, job["hist"], sname], nontrivial=True)
+                if o.get("error"):
+                    run.violation(dict(base, what="abort-or-hang", op="history"), {"program": text, "solver": solver, "history": [goals[i] for i in job["hist"]], "observed": o}); continue
+                bad = False
+                for pos, (gi, r) in enumerate(zip(job["hist"], o["results"])):
+                    f = fresh["results"][gi]
+                    if r.get("text") != f.get("text"):
+                        bad = True
+                        # did a size limit cut the search short -- in the fresh solve, or anywhere in the history so far (a table that has
+                        # floundered stays floundered for later queries)?
+                        lim = f.get("limits", 0) > 0 or any(x.get("limits", 0) > 0 for x in o["results"][:pos + 1])
+                        run.violation(dict(base, what="answer on a used solver differs from a fresh solver's", limits=lim),
+                                      {"program": text, "solver": solver, "history": [goals[i] for i in job["hist"][:pos + 1]], "fresh": f, "observed": r}); break
+                if not bad: run.traces += 1; nh += 1
+    run.extra["first_order_history_programs"] = len(progs)
+    run.extra["first_order_histories_ok"] = nh
